@@ -309,6 +309,17 @@ class Ctx:
         if self.build_ok and not self.audit["ok"]:
             for pr in self.audit["problems"]:
                 self.broke("axiom/forbidden-token audit", pr)
+        if self.build_ok and self.tier == "thorough":
+            # independent re-check of the compiled theorem files by Lean's external checker
+            mods = [pf[:-5].replace("/", ".") for pf in self.prop_files]
+            try:
+                p = subprocess.run(["lake", "env", "leanchecker"] + mods, cwd=LEAN, stdout=subprocess.PIPE,
+                                   stderr=subprocess.STDOUT, text=True, timeout=1800)
+                self.extra["leanchecker"] = "ok" if p.returncode == 0 else "FAILED"
+                if p.returncode != 0:
+                    self.broke("leanchecker " + " ".join(mods), p.stdout[-600:])
+            except (OSError, subprocess.TimeoutExpired) as e:
+                self.extra["leanchecker"] = "not run: %r" % e
 
     # ---- finish
     def finish(self):
